@@ -46,6 +46,15 @@ CHECKS = {
              'Route x method availability likewise. Header negotiation '
              'strings are enumerated concretely (stated as enumeration).',
         ref='DESIGN.md section 5 C14, Appendix C'),
+    'C16': dict(
+        text='For every route x method the caller is a vector of symbolic '
+             'credential bits (token, admin, service, reader, member, same '
+             'project); the real oslo.policy enforcer runs on the real rule '
+             'defaults and z3 proves served => documented rule admits the '
+             'caller, denied => rule does not, 401 without token, no state '
+             'change when denied. Single-rule overrides (! and @) are '
+             'enumerated over rules x operations.',
+        ref='DESIGN.md section 5 C16'),
     'C19': dict(
         text='(a) z3 regular-expression inclusion of the real schema '
              'patterns (Python search/$ semantics) in CUSTOM_[A-Z0-9_]+ for '
